@@ -27,7 +27,7 @@ ASSUMPTIONS = ["tolerance(iii) = 10 x (measured max coefficient error) x sqrt(nn
                "instances where force balance does not determine the tensions up to scale (nullity != 1) give no verdict",
                "with k=0 resampling is taken with replace_short_edges=False (contracting border edges moves the far end of inferred interfaces)",
                "a two-point interface of a Moebius image is a chord, not an arc: k=0 is only combined with straight tissues"]
-REQUIRED_TAGS = {"all": ["verdict", "resampled", "solver:lsq", "solver:lsq_linear", "fit:taubinSVD", "straight", "curved", "path:inv", "path:nnls-fallback", "subtissue_verdict", "major_arc"]}
+REQUIRED_TAGS = {"all": ["verdict", "resampled", "solver:lsq", "solver:lsq_linear", "fit:taubinSVD", "straight", "curved", "path:inv", "path:nnls-fallback", "subtissue_verdict", "major_arc", "mixed_point_counts"]}
 
 
 def judge(at, cm, r, method, fit, viol, known, tags):
@@ -214,7 +214,7 @@ class Geometry(ProductSystem):
                 "rot": rots,
                 "trans": [[0, 0], [3, 1], [-10, 4]],
                 "scale": [1.0, 1e-3, 1e3],
-                "k": [3] + [x for x in range(1, 17) if x != 3] + [0],
+                "k": [3] + [x for x in range(1, 17) if x != 3] + [0, ["mod3", 1, 4, 9], ["mod3", 16, 2, 1]],
                 "rs": RESAMPLE,
                 "solver": [None, "lsq", "lsq_linear"],
                 "fit": ["dlite", "taubinSVD"],
@@ -229,6 +229,8 @@ class Geometry(ProductSystem):
             # two-point "arcs" are chords: such a tissue is not in force balance; outside the statement
             return {"viol": [], "tags": ["outside:k0_curved"], "cls": "k0-curved", "outdom": True}
         cm = SC.make_cmap(mobspec, cfg["rot"], cfg["trans"], cfg["scale"], SC.extent_of(at))
+        if isinstance(cfg["k"], list):
+            tags.append("mixed_point_counts")
         rs = cfg["rs"]
         if rs is not None and cfg["k"] == 0:
             rs = [rs[0], False]
